@@ -181,3 +181,126 @@ Example substr_extremes_example :
   substr_val "abc" 0 (- 2 ^ 63) = "" /\
   substr_val "abc" 2147483648 4294967296 = "".
 Proof. repeat split; vm_compute; reflexivity. Qed.
+(* ------------------------------------------------------------------------------------------
+   json(text) and navigation into the parsed document; cosine_distance's formula.
+   Twin: Model/Json.v (funcJson / funcJsonVec, FieldAccessExpr.Execute / ExecuteBatch on JSON
+   values, the JSON text fragment standing in for encoding/json); lemmas: Proofs/JsonProofs.v,
+   Proofs/JsonTotalProofs.v, Proofs/CosineProofs.v. *)
+From Coq Require Import Lia.
+From KV Require Import Model.EvalVec Model.Json Proofs.JsonProofs Proofs.NoPanicProofs
+                       Proofs.JsonTotalProofs Proofs.CosineProofs Base.Flt.
+
+(* The text fragment is read back: every rendering of a document of the fragment -- ANY
+   whitespace before, after and between the tokens ([json_text] / [renders]) -- parses to the
+   document, where a repeated member name keeps its last value ([norm]) ... *)
+Theorem json_parse_any_whitespace : forall d text, json_text d text -> parse_json text = JOk (norm d).
+Proof. exact parse_json_text. Qed.
+Print Assumptions json_parse_any_whitespace.
+
+(* ... in particular the canonical rendering of every well-formed document (numerals and strings
+   of the fragment, at most 1000 levels) ... *)
+Theorem json_parse_render_last_wins : forall d, jwf max_depth d -> parse_json (render d) = JOk (norm d).
+Proof. exact parse_render. Qed.
+Print Assumptions json_parse_render_last_wins.
+
+(* ... and a document without repeated member names comes back as it was written *)
+Theorem json_parse_render : forall d,
+  jwf max_depth d -> names_distinct d -> parse_json (render d) = JOk d.
+Proof. exact parse_render_distinct. Qed.
+Print Assumptions json_parse_render.
+
+(* json(arg)[x1]...[xn], each xi a member name or an index literal: for every pair, every
+   argument expression whose value is a text of the fragment denoting the document d, every
+   path: where the documented navigation ([navigate]: the member of that name -- the last one
+   written --, element n counting from 0, the empty string for an absent member / element and
+   for every step from the empty string) yields j, the evaluator twin returns j as the Go value
+   it is decoded into ([of_json]: object, array, string, float64 of the numeral, Boolean, nil).
+   A top-level value that is not an object counts as an object without members. *)
+Theorem json_navigate : forall (fo : fops) re k v p np arg a text d xs j,
+  eval fo re k v arg = Ok a -> conv_bytes fo a = Some text -> json_text d text ->
+  Forall xstep_ok xs ->
+  navigate (json_top d) (map step_of xs) = Some j ->
+  jeval fo re k v (chain (ECall p (EName np "json") [arg]) xs) = of_json fo (norm j).
+Proof. exact json_navigate_lemma. Qed.
+Print Assumptions json_navigate.
+
+(* where a step does not apply (a name on an array, an index on an object, any step from a
+   non-empty string, a number, a Boolean or null) the evaluation is an ExecuteError -- or the
+   input is outside the model, when a numeral the float oracle does not cover is stepped on *)
+Theorem json_navigate_type_error : forall (fo : fops) re k v xs base j0,
+  jeval fo re k v base = of_json fo (norm j0) ->
+  Forall xstep_ok xs ->
+  navigate j0 (map step_of xs) = None ->
+  (exists pos, jeval fo re k v (chain base xs) = Err (EExec pos)) \/
+  jeval fo re k v (chain base xs) = OutOfModel.
+Proof. exact navigate_chain_none. Qed.
+Print Assumptions json_navigate_type_error.
+
+(* the access twins never panic, in row mode and in batch mode, on any tree whose index
+   literals are not negative (the lexer's NUMBER tokens are digit strings) -- whatever the
+   stored values are: not JSON, arrays, wrong types *)
+Theorem json_access_total : forall (fo : fops) re,
+  (forall p t, re p t <> Panic) ->
+  forall k v e, idx_ok e -> jeval fo re k v e <> Panic.
+Proof. exact jeval_never_panics. Qed.
+Print Assumptions json_access_total.
+
+Theorem json_access_batch_total : forall (fo : fops) re,
+  (forall p t, re p t <> Panic) ->
+  forall e ch, idx_ok e -> jeval_batch fo re e ch <> Panic.
+Proof. exact jeval_batch_never_panics. Qed.
+Print Assumptions json_access_batch_total.
+
+(* the guard of execListAccess is `idx < len` alone: a NumberExpr with a negative Int -- which no
+   query text produces, only a hand-built tree -- makes the Go code index with it *)
+Example negative_index_panics :
+  match jeval prim_fops (fun _ _ => OutOfModel) "k" "{""l"":[1]}"
+          (EAccess 0 (EAccess 0 (ECall 0 (EName 0 "json") [EField 5 ValueKW]) (EStr 12 "l")) (ENum 17 "-1"))
+  with Panic => true | _ => false end = true.
+Proof. vm_compute. reflexivity. Qed.
+
+(* cosine_distance = 1 - (sum a_i*b_i) / (sqrt(sum a_i^2) * sqrt(sum b_i^2)), every sum a fold
+   in index order from 0 *)
+Theorem cosine_distance_is_its_formula : forall (fo : fops) (l r : list (F fo)),
+  List.length l = List.length r ->
+  cosine_distance fo l r =
+    Ok (fsub fo (f_one fo)
+          (fdiv fo (fold_left (fun t ab => fadd fo t (fmul fo (fst ab) (snd ab))) (combine l r) (f_zero fo))
+                   (fmul fo (fsqrt fo (fold_left (fun t a => fadd fo t (fmul fo a a)) l (f_zero fo)))
+                            (fsqrt fo (fold_left (fun t b => fadd fo t (fmul fo b b)) r (f_zero fo)))))).
+Proof. exact cosine_distance_formula. Qed.
+Print Assumptions cosine_distance_is_its_formula.
+
+(* non-vacuity *)
+Example json_renders_example :
+  renders 1 (JArr [JNum "1"; JStr "x y"]) "[ 1 ,	""x y""
+]".
+Proof.
+  exact (R_arr 0 _ _ (RE_cons 0 (JNum "1") [JStr "x y"] " " "1" " " _ eq_refl eq_refl (R_num 0 "1" eq_refl)
+           (RE_last 0 (JStr "x y") (String "009" "") _ (String "010" "") eq_refl eq_refl (R_str 0 "x y" eq_refl)))).
+Qed.
+Definition example_doc : json :=
+  JObj [("a", JObj [("b", JArr [JNum "10"; JStr "x"])]); ("n", JNum "-2.5"); ("e", JObj []);
+        ("a", JObj [("b", JArr [JNum "1"; JStr "y"; JNull; JBool true])])].
+Example json_wf_example : jwf max_depth example_doc /\ ~ names_distinct example_doc.
+Proof.
+  split; [cbn; repeat split; reflexivity|]. intros [H _]. cbn in H.
+  inversion H as [|? ? Hn _]; subst. apply Hn. cbn. auto.
+Qed.
+Example json_text_example : json_text example_doc (" " ++ render example_doc ++ String "010" "").
+Proof.
+  exists " ", (render example_doc), (String "010" ""). repeat split.
+  apply render_renders. apply json_wf_example.
+Qed.
+Example json_navigate_example :
+  navigate (json_top example_doc) (map step_of [XName 4 16 "a"; XName 4 21 "b"; XIdx 4 26 "1"]) = Some (JStr "y") /\
+  match jeval prim_fops (fun _ _ => OutOfModel) "k" (" " ++ render example_doc ++ String "010" "")
+          (chain (ECall 0 (EName 0 "json") [EField 5 ValueKW]) [XName 4 16 "a"; XName 4 21 "b"; XIdx 4 26 "1"])
+  with Ok (JV v) => canon_of prim_fops v | _ => COther end = CText "y" /\
+  navigate (json_top example_doc) (map step_of [XName 4 16 "n"; XIdx 4 21 "0"]) = None /\
+  navigate (json_top example_doc) (map step_of [XName 4 16 "zz"; XIdx 4 21 "3"; XName 4 24 "q"]) = Some (JStr "").
+Proof. vm_compute. repeat split; reflexivity. Qed.
+Example cosine_example :
+  match cosine_distance prim_fops [f_of_Z prim_fops 3; f_of_Z prim_fops 4] [f_of_Z prim_fops 3; f_of_Z prim_fops 4]
+  with Ok x => f_bits prim_fops x | _ => 1%Z end = f_bits prim_fops (f_zero prim_fops).
+Proof. vm_compute. reflexivity. Qed.
